@@ -21,6 +21,8 @@ mod symmetric_common;
 
 //re-export everything to appear as one module
 use nonsymmetric_common::*;
+#[cfg(clarabel_verif)]
+pub(crate) use nonsymmetric_common::{Nonsymmetric3DCone, NonsymmetricCone};
 pub use {
     compositecone::*, expcone::*, genpowcone::*, nonnegativecone::*, powcone::*, socone::*,
     supportedcone::*, symmetric_common::*, zerocone::*,
